@@ -177,6 +177,7 @@ def run(ctx):
     ctx.cov["disagreements_checked"] += sum(len(c.docs) for c in allc)
     from vlib import regress
     regress.search(ctx, {"C19"})          # the shape-agnostic search step (DESIGN.md 12.8)
+    regress.wide_total(ctx)
     replay_findings(ctx)
     ctx.cov["rule"] = ("random in-guard schemas over every kind; per program: schema-directed valid documents and all their single-fault mutants (wrong types, nulls, missing keys, "
                        "bound/length/pattern/enum faults), 15 JSON shapes (null, scalars, arrays, nested objects), 15 malformed byte strings, a third of all of them again on a "
